@@ -51,7 +51,7 @@ class C02(Prop):
     COMPARE = {"ereset", "log", "step", "stepi", "state", "nrec"}
 
     def gen(self, rng, tier):
-        if rng.random() < 0.22:
+        if rng.random() < 0.3:
             return self.gen_xy(rng, tier)
         case, grid, keys = es.gen_episode(rng, tier, markov=rng.random() < 0.15, one_per_bar=False)
         n = len(grid) - 1
@@ -65,7 +65,7 @@ class C02(Prop):
         return dict(kind="xy", seed=rng.randint(0, 10**9), n=rng.randint(30, 60), nx=rng.randint(1, 3), ny=rng.randint(1, 2),
                     window=rng.choice([1, 1, 2, 3, 6]), stride=rng.choice([None, None, 2]),
                     transformer=rng.choice(["z-score", "yeo-johnson", None]), delay=rng.choice([0, 1]),
-                    cut=rng.randint(12, 25), missing=rng.random() < 0.5, drop_x=rng.random() < 0.5)
+                    cut=rng.randint(12, 25), missing=rng.random() < 0.5, drop_x=rng.random() < 0.7)
 
     # ------------------------------------------------------------------ event API
     def perturbed(self, case, after):
